@@ -19,6 +19,10 @@ pub struct Case {
     pub library: bool,
     /// variants to run: (severity filter 0 none/1 error/2 warn/3 info/4 hint, warnings_as_errors, format 0 text/1 json/2 json-file/3 sarif/4 sarif-file)
     pub variants: Vec<(u8, bool, u8)>,
+    /// file naming: 0 = m<i>.lua / sub/m<i>.lua; 1 = the first two files are `foo.lua` and `foo/init.lua` (one module
+    /// name, two files); 2 = `init.lua` in the root and in sub/; 3 = same base name in two directories
+    #[serde(default)]
+    pub layout: u8,
 }
 
 pub struct C36;
@@ -155,7 +159,7 @@ impl Property for C36 {
         "C36"
     }
     fn rule(&self) -> String {
-        "cases = on-disk workspaces of 2-5 files whose lines carry constructed diagnostics (uniquely named undefined globals, unused locals, syntax errors, clean code), a generated .emmyrc.json overriding the severity of undefined-global/unused, optionally a library root with diagnostics that must never be reported; the real emmylua_check binary is run once as baseline (`-f json --severity hint`) and then for 4-8 generated variants of (--severity filter, --warnings-as-errors, output format text/json/json-file/sarif/sarif-file); oracle: ground-truth diagnostics are in the baseline under their own file, exactly once; every variant reports exactly the baseline filtered by severity (json/sarif: full (file, range, code, message) multiset; text: (file, line, col, code, severity, message) multiset), nothing from the library root; exit status is non-zero iff the filtered set has an error, or a warning under --warnings-as-errors; non-trivial = baseline has >=3 severities in >=2 files".into()
+        "cases = on-disk workspaces of 2-5 files (also `foo.lua` next to `foo/init.lua`, i.e. two files with one module name, init.lua files, equal base names in two directories) whose lines carry constructed diagnostics (uniquely named undefined globals, unused locals, syntax errors, clean code), a generated .emmyrc.json overriding the severity of undefined-global/unused, optionally a library root with diagnostics that must never be reported; the real emmylua_check binary is run once as baseline (`-f json --severity hint`) and then for 4-8 generated variants of (--severity filter, --warnings-as-errors, output format text/json/json-file/sarif/sarif-file); oracle: ground-truth diagnostics are in the baseline under their own file, exactly once; every variant reports exactly the baseline filtered by severity (json/sarif: full (file, range, code, message) multiset; text: (file, line, col, code, severity, message) multiset), nothing from the library root; exit status is non-zero iff the filtered set has an error, or a warning under --warnings-as-errors; non-trivial = baseline has >=3 severities in >=2 files".into()
     }
     fn assumptions(&self) -> Vec<String> {
         vec!["SARIF renders information and hint both as level note, so severities are compared for error/warning only in SARIF".into()]
@@ -170,8 +174,9 @@ impl Property for C36 {
             0u8..5,
             any::<bool>(),
             proptest::collection::vec((0u8..5, any::<bool>(), 0u8..5), tier.pick(4, 8)..tier.pick(8, 16)),
+            prop_oneof![3 => Just(0u8), 2 => Just(1u8), 1 => Just(2u8), 1 => Just(3u8)],
         )
-            .prop_map(|(files, sev_ug, sev_unused, library, variants)| Case { files, sev_ug, sev_unused, library, variants })
+            .prop_map(|(files, sev_ug, sev_unused, library, variants, layout)| Case { files, sev_ug, sev_unused, library, variants, layout })
             .boxed()
     }
     fn max_shrink_iters(&self, _tier: Tier) -> u32 {
@@ -205,7 +210,17 @@ impl Property for C36 {
         ws.write(".emmyrc.json", &serde_json::to_string_pretty(&Value::Object(cfg)).unwrap());
         let mut truth: Vec<(String, u32, String, String)> = vec![]; // (file, line, code, marker in message)
         for (fi, kinds) in c.files.iter().enumerate() {
-            let name = if fi % 2 == 1 { format!("sub/m{fi}.lua") } else { format!("m{fi}.lua") };
+            let name = match (c.layout, fi) {
+                (1, 0) => "foo.lua".to_string(),
+                (1, 1) => "foo/init.lua".to_string(),
+                (2, 0) => "init.lua".to_string(),
+                (2, 1) => "sub/init.lua".to_string(),
+                (3, 0) => "a/same.lua".to_string(),
+                (3, 1) => "b/same.lua".to_string(),
+                _ if fi % 2 == 1 => format!("sub/m{fi}.lua"),
+                _ => format!("m{fi}.lua"),
+            };
+            obs.class_if(c.layout == 1 && fi == 1, "two-files-one-module-name");
             ws.write(&name, &file_text(fi, kinds));
             let path = root.join(&name).to_string_lossy().to_string();
             let mut line = 0u32;
